@@ -514,7 +514,7 @@ func replayKnownGeneric(t *testing.T, prop string, judge func(cf *CaseFile) *Vio
 		if err := json.Unmarshal(b, &cf); err != nil {
 			continue
 		}
-		if v := judge(&cf); v != nil && strings.Contains(v.Error(), kf.ID) && (kf.Match == "*" || strings.Contains(v.Error(), kf.Match)) {
+		if v := judge(&cf); v != nil && strings.Contains(v.Error(), kf.ID) && (kf.Match == "*" || strings.HasPrefix(kf.Match, "fn:") || strings.Contains(v.Error(), kf.Match)) {
 			act[kf.Name()] = true
 			knownMatch[prop][kf.Name()] = kf.Match
 			fmt.Printf("KNOWN-FINDING: property=%s %s %s\n", prop, kf.Name(), kf.Text)
